@@ -79,6 +79,12 @@ func init() {
 		}
 		ref := randSeq(rng, w, 0.1)
 		nq := 1 + rng.Intn(30)
+		padded := i%50 == 21
+		if padded {
+			w = 12 + rng.Intn(60)
+			ref = randSeq(rng, w, 0.1)
+			nq = 3 + rng.Intn(4)
+		}
 		if long {
 			ref = randSeq(rng, w, 0.0)
 			nq = 3 + rng.Intn(3)
@@ -111,9 +117,19 @@ func init() {
 				}
 			}
 		}
-		return map[string]interface{}{"id": "rand-" + itoa(i), "ref": symList(ref), "qs": qs,
+		v := map[string]interface{}{"id": "rand-" + itoa(i), "ref": symList(ref), "qs": qs,
 			"hard": rng.Intn(2) == 0, "lowr": rng.Intn(4) == 0, "lowq": rng.Intn(4) == 0,
-			"wrap": []int{0, 0, 1, 7, 60}[rng.Intn(5)], "crlf": rng.Intn(4) == 0, "thr": thr}
+			"wrap": []int{0, 0, 1, 7, 60}[rng.Intn(5)], "crlf": rng.Intn(4) == 0, "thr": thr,
+			"nonlr": rng.Intn(5) == 0, "nonlq": rng.Intn(3) == 0} // files whose last line is not terminated
+		if padded {
+			// a genome of more than 100,000 columns: positions of 1 to 6 digits in one output
+			v["pads"] = []interface{}{[]int{w / 4, 20000 + rng.Intn(9000)}, []int{w / 2, 60000 + rng.Intn(9000)}, []int{3 * w / 4, 10000 + rng.Intn(20000)}}
+			v["wrap"] = []int{0, 60}[rng.Intn(2)]
+			if thr < 0 || thr > 500 {
+				v["thr"] = rng.Intn(400)
+			}
+		}
+		return v
 	}
 }
 
@@ -135,9 +151,27 @@ func init() {
 		}
 		v := map[string]interface{}{"id": "rand7-" + itoa(i), "queries": []interface{}{symList(q)}, "targets": ts,
 			"measure": measure, "n": n, "d": -1, "table": !plain, "threads": 1}
+		if i%150 == 77 {
+			// a long alignment (about 70,000 to 140,000 columns), one base dominating: a unit of 12-20 columns repeated
+			u := 12 + rng.Intn(9)
+			b := []byte(strings.Repeat(string("ACGT"[rng.Intn(4)]), u))
+			for k, p := range rng.Perm(u)[:6] {
+				b[p] = "ACGTAC"[k] // every base present (tn93 is defined), one of them more than 65,536 times once repeated
+			}
+			uq := string(b)
+			measure = []string{"tn93", "tn93", "raw", "snp"}[(i/150)%4]
+			uts := make([]interface{}, 2)
+			for k := range uts {
+				uts[k] = symList(mutate(rng, uq, 0.1, 0.0))
+			}
+			return map[string]interface{}{"id": "rand7-long-" + itoa(i), "queries": []interface{}{symList(uq)}, "targets": uts,
+				"measure": measure, "n": 2, "d": -1, "table": true, "threads": 1, "rep": 70000/u + rng.Intn(70000/u),
+				"wrapt": []int{0, 60}[rng.Intn(2)], "wrapq": 0}
+		}
 		// letter case must not matter: lower-case queries, lower-case targets, soft-masked targets
 		v["wrapt"] = []int{0, 0, 7, 16, 60}[rng.Intn(5)]
 		v["wrapq"] = []int{0, 0, 10}[rng.Intn(3)]
+		v["nonlq"], v["nonlt"] = rng.Intn(3) == 0, rng.Intn(3) == 0
 		switch rng.Intn(6) {
 		case 0:
 			v["lowq"] = true
@@ -157,6 +191,9 @@ func init() {
 		qs := make([]interface{}, nq)
 		for k := range qs {
 			qs[k] = symList(mutate(rng, anc, 0.05, 0.3))
+		}
+		if i%9 == 1 {
+			qs[0] = symList(strings.Repeat("N", w)) // every distance from this query is undefined
 		}
 		nt := 2 + rng.Intn(25)
 		ts := make([]interface{}, nt)
@@ -531,9 +568,20 @@ func init() {
 		if rng.Intn(4) == 0 {
 			o["ignore"] = []int{1 + rng.Intn(nt)}
 		}
-		return map[string]interface{}{"id": "randud-" + itoa(i), "ref": symList(ref), "queries": qs, "targets": ts, "opts": o, "combos": true,
+		v := map[string]interface{}{"id": "randud-" + itoa(i), "ref": symList(ref), "queries": qs, "targets": ts, "opts": o, "combos": true,
 			"lowq": rng.Intn(5) == 0, "lowt": rng.Intn(5) == 0, "wrapr": []int{0, 0, 7}[rng.Intn(3)], "wrapq": []int{0, 0, 5, 60}[rng.Intn(4)],
-			"wrapt": []int{0, 0, 4, 9, 60}[rng.Intn(5)], "crlfq": rng.Intn(6) == 0, "crlft": rng.Intn(6) == 0}
+			"wrapt": []int{0, 0, 4, 9, 60}[rng.Intn(5)], "crlfq": rng.Intn(6) == 0, "crlft": rng.Intn(6) == 0,
+			"nonlr": rng.Intn(5) == 0, "nonlq": rng.Intn(4) == 0, "nonlt": rng.Intn(4) == 0}
+		if i%6 == 4 {
+			// every file folded at the same width k with w mod k = 1: the last column sits alone on a line in all of them
+			for _, k := range []int{4, 5, 3, 7, 2} {
+				if w%k == 1 {
+					v["wrapr"], v["wrapq"], v["wrapt"] = k, k, k
+					break
+				}
+			}
+		}
+		return v
 	}
 }
 
